@@ -10,6 +10,12 @@ BASELINE_OFF = ("cd /repo && env -u PYOPENAPI_GEN_VERIF /venv/bin/python -m pyte
 
 # id -> (category, technique, level text, level note, design ref)
 CHECKS = {
+    "C06": ("exploration", "runtime monitoring: exception classifier on calls of generated methods under a status-injecting fake server, two transports",
+            "Every generated operation is called with the MockTransport answering statuses outside 200-299 (quick: declared + boundary + random; thorough: ALL of "
+            "100-199 and 300-599), through the bundled HttpxTransport and through a minimal custom transport that returns non-2xx unraised. The outcome must be a "
+            "raise of the package's HTTPError carrying that status and the response; 4xx must be ClientError, 5xx ServerError; a return is a violation.",
+            "1xx delivered as final responses by MockTransport.",
+            "DESIGN.md §4 C06"),
     "C04": ("exploration", "runtime monitoring: wire capture (httpx.MockTransport under the generated HttpxTransport) compared with an expected-request model",
             "Generated operations are called in a fresh interpreter through the emitted package's own transport; the captured httpx.Request is compared with an "
             "expected request built from the expectation model and the concrete argument values: exactly one request, HTTP method, path with substituted values, "
